@@ -246,7 +246,10 @@ def run_table(idx: int, nshards: int, res: Result, seed: int = 0, full: bool = T
             continue
         need_core = case["kind"] in G.NEEDS_CORE
         both = full or (i // nshards + seed) % 4 == 0
-        for core in ((True,) if need_core else ((False, True) if both else (False,))):
+        cores = (True,) if need_core else ((False, True) if both else (False,))
+        if case["variant"].get("oor"):
+            cores = (False,)  # out-of-range ids are only tolerated without the core definitions
+        for core in cores:
             base = bases[2] if core else bases[i % 2]
             ch = G.RandomChooser(i * 7 + core)
             q = G.inject_conflict(base, case["kind"], case["placement"], ch, swap=case["swap"], variant=case["variant"])
